@@ -566,14 +566,45 @@ def _binary_read(ex, args, ins, where):
     return NIL
 
 
+def _siphash24(key, msg):
+    """reference SipHash-2-4 (64-bit), key = 16 bytes little endian k0 || k1"""
+    M = (1 << 64) - 1
+    rotl = lambda x, b: ((x << b) | (x >> (64 - b))) & M
+    k0 = int.from_bytes(key[:8], 'little')
+    k1 = int.from_bytes(key[8:16], 'little')
+    v = [k0 ^ 0x736f6d6570736575, k1 ^ 0x646f72616e646f6d, k0 ^ 0x6c7967656e657261, k1 ^ 0x7465646279746573]
+
+    def rnd():
+        v[0] = (v[0] + v[1]) & M; v[1] = rotl(v[1], 13); v[1] ^= v[0]; v[0] = rotl(v[0], 32)
+        v[2] = (v[2] + v[3]) & M; v[3] = rotl(v[3], 16); v[3] ^= v[2]
+        v[0] = (v[0] + v[3]) & M; v[3] = rotl(v[3], 21); v[3] ^= v[0]
+        v[2] = (v[2] + v[1]) & M; v[1] = rotl(v[1], 17); v[1] ^= v[2]; v[2] = rotl(v[2], 32)
+    n = len(msg)
+    tail = msg[n - n % 8:]
+    for i in range(0, n - n % 8, 8):
+        m = int.from_bytes(msg[i:i + 8], 'little')
+        v[3] ^= m
+        rnd(); rnd()
+        v[0] ^= m
+    b = ((n & 0xff) << 56) | int.from_bytes(tail, 'little')
+    v[3] ^= b
+    rnd(); rnd()
+    v[0] ^= b
+    v[2] ^= 0xff
+    rnd(); rnd(); rnd(); rnd()
+    return (v[0] ^ v[1] ^ v[2] ^ v[3]) & M
+
+
 @intrinsic('github.com/aead/siphash.Sum64')
 def _siphash_sum64(ex, args, ins, where):
     """SipHash-2-4 as an uninterpreted function of (message bytes, key bytes)"""
     msg = ex.slice_elems(args[0])
     key = ex.load(args[1], where, None)
     bs = list(msg) + list(key)
-    if ex.pinned is not None or all(not is_sym(b) for b in bs):
-        raise Unsupported('concrete SipHash (no reference implementation in the engine)')
+    if all(not is_sym(b) for b in bs):
+        return _siphash24(bytes(key), bytes(msg))
+    if ex.pinned is not None:
+        raise Unsupported('pinned SipHash on symbolic bytes')
     k = ('siphash', len(msg))
     f = ex.uf_cache.get(k)
     if f is None:
